@@ -4,9 +4,12 @@
    for every name conversion); [compile] instantiates them with lib/Strcase.v. *)
 From Coq Require Import String List NArith Bool.
 From J5V.lib Require Import Outcome Strcase.
-From J5V.model Require Import J5sAst Desc J5sWalk J5sLink J5sConvert J5sContract J5sSymbols J5sTypeNames J5sValid J5sCorr.
+From J5V.model Require Entity.
+From J5V.model Require Import J5sValidDecl J5sComments J5sEntity J5sRefSpec J5sAst Desc J5sWalk J5sLink J5sConvert J5sContract J5sSymbols J5sTypeNames J5sValid J5sCorr.
 From J5V.gen Require ImportsGen.
-From J5V.proofs Require Import J5sProofs J5sContractProofs J5sLinkProofs J5sResolveProofs J5sResolveCompleteProofs J5sServiceProofs J5sTotalProofs J5sSymbolProofs J5sCompileProofs J5sSubPkgProofs J5sDepsProofs J5sNameProofs J5sTypeNameProofs J5sWitnessProofs.
+From J5V.model Require RulesDecl RulesWrite.
+From Coq Require Import ZArith.
+From J5V.proofs Require Import J5sProofs J5sContractProofs J5sLinkProofs J5sResolveProofs J5sResolveCompleteProofs J5sServiceProofs J5sTotalProofs J5sSymbolProofs J5sCompileProofs J5sSubPkgProofs J5sDepsProofs J5sNameProofs J5sTypeNameProofs J5sWitnessProofs J5sStrictProofs StrcaseProofs J5sStrcaseProofs J5sInfraProofs J5sRefSpecProofs J5sRulesCompose J5sEntityProofs J5sCommentsProofs J5sValidDeclProofs J5sInfraDepsProofs.
 Import ListNotations.
 Local Open Scope N_scope.
 
@@ -45,14 +48,23 @@ Theorem C02_properties_contract : forall snake camel screaming ps ev path io num
   map dm_name (pr_msgs r) = flat_map (prop_msg_names snake camel) (props_list ps) /\
   map en_name (pr_enums r) = flat_map (prop_enum_names camel) (props_list ps) /\
   (forall msgs enums, incl (pr_msgs r) msgs -> incl (pr_enums r) enums ->
-     props_inline_ok snake camel screaming ps msgs enums).
+     props_inline_ok snake camel screaming true ps msgs enums).
 Proof. intros snake camel screaming. exact (proj1 (proj2 (convert_refines snake camel screaming))). Qed.
 Print Assumptions C02_properties_contract.
 
-(* ---- enums: the declared options numbered in order after <PREFIX>UNSPECIFIED = 0 *)
-Theorem C02_enum_contract : forall screaming name e, enum_ok screaming name e (cv_enum screaming name e).
+(* ---- enums: the declared options numbered in order after <PREFIX>UNSPECIFIED = 0 (the zero
+   value may be spelled out as the first option: UNSPECIFIED or <PREFIX>UNSPECIFIED) - with the
+   clause waived ([true]) for enums whose first option ends in UNSPECIFIED under a name of its own *)
+Theorem C02_enum_contract : forall screaming name e, enum_ok screaming true name e (cv_enum screaming name e).
 Proof. intros screaming. exact (cv_enum_ok screaming screaming screaming). Qed.
 Print Assumptions C02_enum_contract.
+
+(* ... and exactly for those enums the compiler's output violates the clause of the property text
+   ([false]: nothing waived): the class of the recorded finding is exact *)
+Theorem C02_enum_contract_exact : forall screaming name e,
+  enum_ok screaming false name e (cv_enum screaming name e) <-> named_zero screaming name e = false.
+Proof. intros screaming. exact (cv_enum_strict_iff screaming screaming screaming). Qed.
+Print Assumptions C02_enum_contract_exact.
 
 (* ---- well-formed declarations always convert (no error, no panic, no fuel) *)
 Theorem C02_properties_convert : forall snake camel screaming ev ps io,
@@ -70,7 +82,7 @@ Print Assumptions C02_properties_convert.
    same contract, to any depth. *)
 Theorem C02_compile_sound : forall snake camel screaming bd pkg D,
   compile_package snake camel screaming bd pkg = Ok D ->
-  package_contract snake camel screaming bd pkg D.
+  package_contract snake camel screaming true bd pkg D.
 Proof. exact compile_sound. Qed.
 Print Assumptions C02_compile_sound.
 
@@ -82,7 +94,7 @@ Theorem C02_service_contract : forall snake camel screaming ev s ms ss is,
   cv_service snake camel screaming ev s = Ok (ms, ss, is) ->
   exists ds, ss = [ds] /\ ds_name ds = sv_name s ++ b "Service" /\ ds_topic ds = None /\
              Forall2 (method_ok snake (sv_base s)) (sv_methods s) (ds_methods ds) /\
-             exists mss, ms = concat mss /\ Forall2 (method_msgs_ok snake camel screaming) (sv_methods s) mss.
+             exists mss, ms = concat mss /\ Forall2 (method_msgs_ok snake camel screaming true) (sv_methods s) mss.
 Proof. exact cv_service_ok. Qed.
 Print Assumptions C02_service_contract.
 
@@ -93,16 +105,16 @@ Theorem C02_topic_contract : forall snake camel screaming ev t ms ss is,
   cv_topic snake camel screaming ev t = Ok (ms, ss, is) ->
   match t with
   | TPublish name msgs =>
-      exists ds, ss = [ds] /\ topic_service_ok snake camel screaming name (snake name) RPublish PNil msgs ms ds
+      exists ds, ss = [ds] /\ topic_service_ok snake camel screaming true name (snake name) RPublish PNil msgs ms ds
   | TReqRes name req reply =>
       exists ds1 ds2 ms1 ms2, ss = [ds1; ds2] /\ ms = ms1 ++ ms2 /\
-        topic_service_ok snake camel screaming (name ++ b "Request") (snake name) RRequest virt_request req ms1 ds1 /\
-        topic_service_ok snake camel screaming (name ++ b "Reply") (snake name) RReply virt_request reply ms2 ds2
+        topic_service_ok snake camel screaming true (name ++ b "Request") (snake name) RRequest virt_request req ms1 ds1 /\
+        topic_service_ok snake camel screaming true (name ++ b "Reply") (snake name) RReply virt_request reply ms2 ds2
   | TUpsert name entity msg =>
       exists ds, ss = [ds] /\
-        topic_service_ok snake camel screaming name (snake name) (RUpsert entity) virt_upsert [default_tm_name name msg] ms ds
+        topic_service_ok snake camel screaming true name (snake name) (RUpsert entity) virt_upsert [default_tm_name name msg] ms ds
   | TEvent name entity msg =>
-      exists ds, ss = [ds] /\ topic_service_ok snake camel screaming name (snake name) (REvent entity) PNil [msg] ms ds
+      exists ds, ss = [ds] /\ topic_service_ok snake camel screaming true name (snake name) (REvent entity) PNil [msg] ms ds
   end.
 Proof. exact cv_topic_ok. Qed.
 Print Assumptions C02_topic_contract.
@@ -289,11 +301,339 @@ Print Assumptions C02_valid_packages_compile.
    the dependency lists. *)
 Definition C02_full_statement : Prop :=
   forall bd pkg, valid bd = true -> (exists f, In f bd /\ bfile_pkg f = pkg) ->
-    exists D, compile bd pkg = Ok D /\ package_contract_full to_snake to_camel to_screaming_snake bd pkg D.
+    exists D, compile bd pkg = Ok D /\ package_contract_full to_snake to_camel to_screaming_snake false bd pkg D.
 
-Theorem C02_full : C02_full_statement.
+(* REFUTED by the faithful model (known finding, replayed on the real compiler in every run):
+   `enum Status { option OLD_UNSPECIFIED  option ACTIVE }` is valid and compiles to
+   STATUS_OLD_UNSPECIFIED = 0, STATUS_ACTIVE = 1 - no STATUS_UNSPECIFIED, the declared options
+   numbered from 0: a FIRST option ending in UNSPECIFIED is taken as the zero value whatever
+   its name (conversion.go visitEnumNode: strings.HasSuffix) *)
+Theorem C02_named_zero_refuted :
+  valid w_named_zero = true /\
+  exists D, compile w_named_zero (b "foo.v1") = Ok D /\
+    map en_vals (flat_map fl_enums D) = [[(b "STATUS_OLD_UNSPECIFIED", 0); (b "STATUS_ACTIVE", 1)]] /\
+    ~ package_contract_full to_snake to_camel to_screaming_snake false w_named_zero (b "foo.v1") D.
+Proof. exact named_zero_violates. Qed.
+Print Assumptions C02_named_zero_refuted.
+
+Theorem C02_full_refuted : ~ C02_full_statement.
+Proof.
+  intros H. destruct C02_named_zero_refuted as (Hv & D & Hc & _ & Hn).
+  destruct (H w_named_zero (b "foo.v1") Hv) as (D' & Hc' & Hok).
+  - eexists. split; [left; reflexivity|vm_compute; reflexivity].
+  - rewrite Hc in Hc'. inversion Hc'. subst D'. exact (Hn Hok).
+Qed.
+Print Assumptions C02_full_refuted.
+
+(* PROVED, and the only thing missing is that class of enums: (1) for every valid bundle, the
+   statement with the enum clause waived for enums whose first option names a zero value of
+   its own (everything else about those enums - name, place - and about every other
+   declaration holds) ... *)
+Theorem C02_full_partial :
+  forall bd pkg, valid bd = true -> (exists f, In f bd /\ bfile_pkg f = pkg) ->
+    exists D, compile bd pkg = Ok D /\ package_contract_full to_snake to_camel to_screaming_snake true bd pkg D.
 Proof. exact (compile_correct_full to_snake to_camel to_screaming_snake). Qed.
+Print Assumptions C02_full_partial.
+
+(* ... (2) the full statement for every valid bundle in which no enum - declared, nested or
+   inline, at any depth, in objects, oneofs, requests, responses, topic messages - has such a
+   first option (plain_bundle: a boolean check on the source) *)
+Theorem C02_full :
+  forall bd pkg, valid bd = true -> plain_bundle to_camel to_screaming_snake bd = true ->
+    (exists f, In f bd /\ bfile_pkg f = pkg) ->
+    exists D, compile bd pkg = Ok D /\ package_contract_full to_snake to_camel to_screaming_snake false bd pkg D.
+Proof.
+  intros bd pkg Hv Hp Hex. destruct (C02_full_partial bd pkg Hv Hex) as (D & Hc & Hok).
+  exists D. split; [exact Hc|]. exact (contract_strict_of_plain to_snake to_camel to_screaming_snake bd pkg D Hp Hok).
+Qed.
 Print Assumptions C02_full.
+
+(* ---- the reference clause of `valid` read declaratively.  `valid` evaluates, for every
+   reference, J5sValid.ref_is = "the model's resolver returns a declaration of the wanted
+   kind".  In a valid bundle that is exactly J5sRefSpec.ref_declared, a condition on the source
+   (own package / well-known package written in full / the LAST import line that can be written
+   with the prefix - alias, full name, name without version, package of an imported file -;
+   a declaration of that name and kind among the exports): soundness and completeness of the
+   resolver w.r.t. the documented import rule, in one statement *)
+Theorem C02_reference_clause_declarative : forall bd f,
+  valid bd = true -> In (BJ f) bd ->
+  exists im, import_map (jf_imports f) [] = Ok im /\
+    forall r we, ref_is (mkEnv (j5s_pkg f) im (pkg_exports to_camel bd)) r we = true <->
+                 ref_declared (j5s_pkg f) (jf_imports f) (pkg_exports to_camel bd) r we.
+Proof. exact (valid_reference_clause to_snake to_camel to_screaming_snake). Qed.
+Print Assumptions C02_reference_clause_declarative.
+
+(* the same for any environment: import lines well-formed, exported names distinct *)
+Theorem C02_resolver_sound_and_complete : forall this imports im exports,
+  import_map imports [] = Ok im ->
+  (forall p ex, exports p = Some ex -> J5sValid.distinct (map tr_name ex) = true) ->
+  forall r we, ref_is (mkEnv this im exports) r we = true <-> ref_declared this imports exports r we.
+Proof. exact ref_is_iff_declared. Qed.
+Print Assumptions C02_resolver_sound_and_complete.
+
+(* `valid` without the resolver: valid bd = true exactly when the bundle is structurally well
+   formed (valid_struct: J5sValid's checks with every reference check taken out - identifiers,
+   sibling names, containers, oneof members, required / optional, path parameters, topic message
+   names, distinct exported names, no duplicate generated symbol, reserved sub-package names,
+   distinct file paths; a boolean function of the source) and every reference written anywhere in
+   it (krefs_file: with the kind its place wants) is declared in the sense of
+   J5sRefSpec.ref_declared.  So the hypothesis of C02_full / C13_full can be read without any
+   function of the compiler model. *)
+Theorem C02_valid_declarative : forall bd,
+  valid bd = true <-> valid_decl to_snake to_camel to_screaming_snake bd.
+Proof. exact (valid_iff_decl to_snake to_camel to_screaming_snake). Qed.
+Print Assumptions C02_valid_declarative.
+
+Example C02_reference_example :
+  (* import foo.v1 ; import foo.v2 : the prefix "foo" means foo.v2 (the last line that claims it) *)
+  let imports := [mkImport (b "foo.v1") []; mkImport (b "foo.v2") []] in
+  option_map import_pkg (import_for imports (b "foo")) = Some (b "foo.v2") /\
+  option_map import_pkg (import_for imports (b "foo.v1")) = Some (b "foo.v1") /\
+  import_for imports (b "bar") = None.
+Proof. cbv zeta. repeat split; vm_compute; reflexivity. Qed.
+
+(* ---- WHICH infrastructure files a construct needs: the model's import lists against the tables
+   the translator reads off fields.go / conversion.go / service.go on every run (per switch arm /
+   function: the constants passed to ensureImport on every path to its end - setJ5Ext counts as
+   j5ExtImport - and those ensured only under a nested condition; values from imports.go) *)
+Theorem C02_infrastructure_tables_agree :
+  forallb scalar_infra_ok all_scalars = true /\ other_infra_ok = true.
+Proof. exact (conj scalar_infra_agree other_infra_agree). Qed.
+Print Assumptions C02_infrastructure_tables_agree.
+
+(* for EVERY scalar type: what the model imports for the field contains what the Go arm always
+   ensures (well-known type file, annotations) and nothing the arm does not ensure *)
+Theorem C02_scalar_imports_from_go_table : forall s,
+  exists u c, row ImportsGen.field_infra (arm_of_scalar s) = Some (u, c) /\
+    incl (vals u) (fc_imports (scalar_core s)) /\
+    incl (fc_imports (scalar_core s)) (vals u ++ vals c).
+Proof. exact scalar_imports_from_go_table. Qed.
+Print Assumptions C02_scalar_imports_from_go_table.
+
+(* ... and every scalar type written at any depth of a run of properties that converts brings
+   those files into the imports collected for the generated file *)
+Theorem C02_scalar_infrastructure_imported : forall snake camel screaming ev ps path io n r,
+  cv_props snake camel screaming ev path io n ps = Ok r ->
+  forall s, In s (scalars_of_props ps) ->
+    exists u c, row ImportsGen.field_infra (arm_of_scalar s) = Some (u, c) /\ incl (vals u) (pr_imports r).
+Proof. exact props_infra_from_go_table. Qed.
+Print Assumptions C02_scalar_infrastructure_imported.
+
+(* a reference imports the defining file of its target and exactly the always-ensured files of
+   the Field_Object / Field_Oneof / Field_Enum arm (other_infra_ok ties ref_infra to the table) *)
+Theorem C02_reference_imports : forall ev r we c,
+  ref_core ev r we = Ok c -> exists t, resolve ev r = Ok t /\ fc_imports c = tr_file t :: ref_infra we.
+Proof. exact ref_imports_from_go_table. Qed.
+Print Assumptions C02_reference_imports.
+
+(* required properties, arrays, declared objects, topics, methods: the always-ensured files of
+   the corresponding Go block are among the imports the model collects *)
+Theorem C02_construct_imports : forall snake camel screaming,
+  (forall ev path io num n op f r,
+     cv_property snake camel screaming ev path io num (Property n true op f) = Ok r ->
+     exists u c, row ImportsGen.property_infra "if required"%string = Some (u, c) /\ incl (vals u) (pr_imports r)) /\
+  (forall ev path io num n rq op it r,
+     cv_property snake camel screaming ev path io num (Property n rq op (FArray it)) = Ok r ->
+     exists u c, row ImportsGen.property_infra "Field_Array"%string = Some (u, c) /\ incl (vals u) (pr_imports r)) /\
+  (forall ev path nm ps subs ms es is,
+     cv_nested snake camel screaming ev path (NObject nm ps subs) = Ok (ms, es, is) ->
+     exists u c, row ImportsGen.func_infra "conversion.go:visitObjectNode"%string = Some (u, c) /\ incl (vals u) is) /\
+  (forall ev tname topic_name rl virt l ms ss is,
+     accept_topic snake camel screaming ev tname topic_name rl virt l = Ok (ms, ss, is) ->
+     exists u c, row ImportsGen.func_infra "conversion.go:visitTopicNode"%string = Some (u, c) /\ incl (vals u) is) /\
+  (forall ev base m ms dm is,
+     cv_method snake camel screaming ev base m = Ok (ms, dm, is) ->
+     exists u c, row ImportsGen.func_infra "service.go:visitServiceMethodNode"%string = Some (u, c) /\
+       incl (vals u) is /\ (m_response m = None -> In imp_httpbody is /\ In imp_httpbody (vals c))).
+Proof.
+  intros snake camel screaming. split; [exact (required_imports_from_go_table snake camel screaming)|].
+  split; [exact (array_imports_from_go_table snake camel screaming)|].
+  split; [exact (object_imports_from_go_table snake camel screaming)|].
+  split; [exact (topic_imports_from_go_table snake camel screaming)|exact (method_imports_from_go_table snake camel screaming)].
+Qed.
+Print Assumptions C02_construct_imports.
+
+(* ... at package level, for whatever compiles: the infrastructure files a declaration needs
+   (needs_*: read off the source with the per-type lists tied to the Go tables above - the
+   scalar's always-ensured files, annotation / validation imports of references and inline
+   types, the `required` block, arrays, message options, google.api.http and HttpBody of
+   methods, messaging annotations and Empty of topics) are the generated file the declaration
+   goes to (main / .service / .topic) or among its dependencies, after the link step - the
+   counterpart of C02_references_reach_dependencies for infrastructure files *)
+Theorem C02_infrastructure_reaches_dependencies : forall snake camel screaming bd pkg D,
+  compile_package snake camel screaming bd pkg = Ok D ->
+  forall f, In (BJ f) bd -> j5s_pkg f = pkg -> file_needs_ok f D.
+Proof. exact compile_needs_imported. Qed.
+Print Assumptions C02_infrastructure_reaches_dependencies.
+
+(* C02_full with the declarative hypothesis *)
+Theorem C02_full_declarative :
+  forall bd pkg, valid_decl to_snake to_camel to_screaming_snake bd ->
+    plain_bundle to_camel to_screaming_snake bd = true ->
+    (exists f, In f bd /\ bfile_pkg f = pkg) ->
+    exists D, compile bd pkg = Ok D /\ package_contract_full to_snake to_camel to_screaming_snake false bd pkg D.
+Proof.
+  intros bd pkg Hv. apply C02_full. apply C02_valid_declarative. exact Hv.
+Qed.
+Print Assumptions C02_full_declarative.
+
+(* ---- entities.  sourcewalk/entity.go does not convert an entity itself: it builds ordinary
+   objects, an enum, a oneof, a service and a topic and hands them to the same visitors.
+   model/J5sEntity.v is that expansion, source to source (expand_jfile); every theorem above
+   applies to the expanded bundle as it stands.  For the entity itself: in every valid bundle
+   that holds an expanded file, the package compiles and, for every entity of the file, the main
+   file has <Name>Keys / <Name>Data / <Name>Status / <Name>State / <Name>EventType (events
+   nested) / <Name>Event to the contract of their declarations (keys / data / events in
+   declared order, numbered from 1; primary keys required; ...), the .service file the
+   <Name>Query service (Get / List / Events: key path parameters, page / query fields) and the
+   .topic file the <Name>Publish topic.  Covered: keys (primary / shard), data, statuses,
+   events; command services, summaries, schemas inside the entity block and query settings are
+   C17's (family ent).  (Enum clause waived for a first status ending in UNSPECIFIED under a
+   name of its own - the recorded finding -: lenient contract.) *)
+Theorem C02_full_with_entities : forall bd dir base imps els e,
+  valid bd = true -> In (BJ (expand_jfile dir base imps els)) bd -> In (XEntity e) els ->
+  let f := expand_jfile dir base imps els in
+  let pkg := join dot dir in
+  exists D, compile bd pkg = Ok D /\
+    (exists df, In df D /\ fl_path df = main_proto_path f /\
+       forall el, In el (entity_main_elements e) ->
+         element_ok to_snake to_camel to_screaming_snake true el (fl_msgs df) (fl_enums df)) /\
+    (exists df ms ds, In df D /\ fl_path df = sub_proto_path f (b "service") /\ In ds (fl_svcs df) /\
+       match query_service pkg e with
+       | EService s => service_linked_ok to_snake to_camel to_screaming_snake true (pkg ++ dot ++ b "service") s ms ds
+       | _ => False
+       end) /\
+    (exists df ms ss, In df D /\ fl_path df = sub_proto_path f (b "topic") /\
+       match publish_topic pkg e with
+       | ETopic t => topic_linked_ok to_snake to_camel to_screaming_snake true (pkg ++ dot ++ b "topic") t ms ss
+       | _ => False
+       end).
+Proof.
+  intros bd dir base imps els e Hv Hin He f pkg.
+  destruct (C02_full_partial bd pkg Hv) as (D & Hc & Hok).
+  - exists (BJ f). split; [exact Hin|reflexivity].
+  - exists D. split; [exact Hc|].
+    exact (entity_contract to_snake to_camel to_screaming_snake true bd dir base imps els e D Hok Hin He).
+Qed.
+Print Assumptions C02_full_with_entities.
+
+(* the expansion agrees with family ent's model of the same code (model/Entity.v, property C17:
+   complete, mutually consistent expansion) on the README example and on an entity with shard
+   keys: same messages per file, fields (JSON name, repeated, optional), enum values, services,
+   methods with input / output / HTTP path; on every run both models are compared with the real
+   compiler on generated entities (C02: ~100 entity files per quick run; C17: ent's stream) *)
+Theorem C02_entity_models_agree :
+  (exists D cs, compile (c02_bundle [b "foo"; b "v1"] c02_foo) (b "foo.v1") = Ok D /\
+                Entity.expand ent_foo = Ok cs /\ c02_shape (b "foo.v1") D = ent_shape cs) /\
+  (exists D cs, compile (c02_bundle [b "acme"; b "users"; b "v1"] c02_acc) (b "acme.users.v1") = Ok D /\
+                Entity.expand ent_acc = Ok cs /\ c02_shape (b "acme.users.v1") D = ent_shape cs).
+Proof. exact entity_models_agree. Qed.
+Print Assumptions C02_entity_models_agree.
+
+Example C02_entity_example :
+  valid (c02_bundle [b "foo"; b "v1"] c02_foo) = true /\
+  exists D, compile (c02_bundle [b "foo"; b "v1"] c02_foo) (b "foo.v1") = Ok D /\ length D = 3%nat.
+Proof. exact readme_entity_valid. Qed.
+
+(* ---- descriptions: the source locations (descriptor path + leading comment) the compiler
+   writes into the main file, model/J5sComments.v (main_locs: from the source and a table of
+   descriptions keyed by declared name path; emission order of j5convert's commentSet: the
+   message, then per property the inline type it defines and the property itself, then the
+   nested schemas; enums and enum values only where described, value path by NUMBER; the
+   description of a property with an inline type stays on the property).  Tied on every run:
+   for every compiled case the list equals the real SourceCodeInfo of every main file of the
+   package (J5sCorr.locs_check).  Here: the declaration the real compiler was probed with.
+   Not in SourceCodeInfo at all (observed): service and method descriptions. *)
+Theorem C02_source_locations_probe :
+  locs_eqb (main_locs to_camel probe_table probe_file) probe_real = true.
+Proof. exact probe_locations. Qed.
+Print Assumptions C02_source_locations_probe.
+
+(* ---- C02 (structure) x C12 / C04 (validation rules, list rules, annotations): family scha's
+   writer model (model/RulesWrite.v write_prop: buildField / buildProperty with every rule arm,
+   key annotations, list rules) composed with the C02 contract on a property.  [erase] forgets
+   rules, list rules, key annotations, description.  (1) whatever write_prop emits satisfies the
+   C02 structural contract of the erased property; (2) so the structure - proto name, JSON
+   name, number, proto type, cardinality, optionality - does not depend on rule values (nor on
+   the enum environment the rules are read in); (3) and it is the structure the C02 converter
+   produces for the erased property: the two models agree where they overlap *)
+Theorem C02_rules_output_satisfies_structure : forall env idx d o,
+  RulesWrite.write_prop env idx d = Ok o ->
+  field_decl_ok to_snake false (idx + 1) (erase d) (structure_of o).
+Proof. exact rules_output_satisfies_structure. Qed.
+Print Assumptions C02_rules_output_satisfies_structure.
+
+Theorem C02_structure_independent_of_rules : forall env env' idx d d' o o',
+  erase d = erase d' ->
+  RulesWrite.write_prop env idx d = Ok o -> RulesWrite.write_prop env' idx d' = Ok o' ->
+  structure_of o = structure_of o'.
+Proof. exact structure_independent_of_rules. Qed.
+Print Assumptions C02_structure_independent_of_rules.
+
+Theorem C02_rules_model_agrees_on_structure : forall camel screaming ev path env idx d o r,
+  RulesWrite.write_prop env idx d = Ok o ->
+  cv_property to_snake camel screaming ev path false (idx + 1) (erase d) = Ok r ->
+  exists df, pr_fields r = [df] /\ same_structure df (structure_of o).
+Proof. exact rules_model_agrees_with_c02. Qed.
+Print Assumptions C02_rules_model_agrees_on_structure.
+
+Example C02_rules_compose_example :
+  let env := RulesDecl.EE [] None [] in
+  let with_rules := RulesDecl.P (b "age") true false
+        (RulesDecl.PSingle (RulesDecl.TInt RulesDecl.I32
+            (Some (RulesDecl.IR (Some 0%Z) (Some 150%Z) None (Some true)))
+            (Some (RulesDecl.LP true true false false [])))) [] in
+  let plain := RulesDecl.P (b "age") true false (RulesDecl.PSingle (RulesDecl.TInt RulesDecl.I32 None None)) [] in
+  erase with_rules = erase plain /\
+  exists o o', RulesWrite.write_prop env 2 with_rules = Ok o /\ RulesWrite.write_prop env 2 plain = Ok o' /\
+               RulesDecl.fo_val o <> RulesDecl.fo_val o' /\ structure_of o = structure_of o' /\
+               f_num (structure_of o) = 3 /\ f_type (structure_of o) = TInt32.
+Proof. exact rules_compose_example. Qed.
+
+(* ---- the contract with the byte-exact strcase functions put in (lib/Strcase.v; facts of
+   proofs/StrcaseProofs.v), for names of the documented shape: lowerCamel property names and
+   UpperCamel type names, digits allowed (lower_camel_d / upper_word_d) *)
+(* the JSON name the compiler writes (the declared name) is the JSON name protoc derives from
+   the proto field name: to_lower_camel (to_snake n) = n *)
+Theorem C02_json_name_is_protoc_default : forall ev path io num ps r,
+  cv_props to_snake to_camel to_screaming_snake ev path io num ps = Ok r ->
+  names_lcd (props_list ps) = true ->
+  forall i df, nth_error (pr_fields r) i = Some df ->
+    exists p, nth_error (props_list ps) i = Some p /\ f_name df = to_snake (prop_name p) /\
+              f_json df = prop_name p /\ to_lower_camel (f_name df) = f_json df.
+Proof.
+  intros ev path io num ps r H Hc.
+  destruct (C02_properties_contract to_snake to_camel to_screaming_snake ps ev path io num r H) as (Hf & _).
+  exact (fields_json_default io num (props_list ps) (pr_fields r) Hf Hc).
+Qed.
+Print Assumptions C02_json_name_is_protoc_default.
+
+(* ToSnake is injective on such names: distinct declared names give distinct proto field names
+   (the proto-name clause of `valid` follows from the JSON-name clause) *)
+Theorem C02_distinct_names_suffice : forall ps,
+  names_lcd (props_list ps) = true ->
+  J5sValid.distinct (map prop_name (props_list ps)) = true ->
+  J5sValid.distinct (map (fun p => to_snake (prop_name p)) (props_list ps)) = true.
+Proof. exact sibling_proto_names_distinct. Qed.
+Print Assumptions C02_distinct_names_suffice.
+
+(* the default enum prefix is the upper-cased snake form of the enum name and "_"; the default
+   name of an inline type is recovered from the snake form of an UpperCamel name *)
+Theorem C02_enum_default_prefix : forall name e,
+  e_prefix e = [] -> enum_pfx to_screaming_snake name e = map to_upper (to_snake name) ++ b "_".
+Proof. exact enum_default_prefix. Qed.
+Print Assumptions C02_enum_default_prefix.
+
+Theorem C02_inline_default_name_roundtrip : forall t given,
+  upper_word_d t = true -> given = [] -> inline_type_name to_camel (to_snake t) given = t.
+Proof. exact inline_default_name_roundtrip. Qed.
+Print Assumptions C02_inline_default_name_roundtrip.
+
+Example C02_strcase_example :
+  names_lcd [Property (b "address2Line") false false (FScalar SString); Property (b "fooB2") false false (FScalar SString)] = true /\
+  to_snake (b "address2Line") = b "address_2_line" /\ to_lower_camel (b "address_2_line") = b "address2Line" /\
+  enum_pfx to_screaming_snake (b "FooBar") (mkEnum (b "FooBar") [] []) = b "FOO_BAR_".
+Proof. repeat split; vm_compute; reflexivity. Qed.
 
 (* ---- regression examples: the inputs of the repaired defects compile to the declared types *)
 Theorem C02_fixed_inline_named_like_parent :
@@ -319,11 +659,11 @@ Example C02_example :
                   Property (b "bar") false false (FObjInline [] (mkprops [sfield "x"]));
                   Property (b "tags") false false (FMap (FScalar SString));
                   Property (b "st") false true (FEnumInline (mkEnum [] [] [b "A"; b "B"]))]) NNil])] in
-  valid bd = true /\
+  valid bd = true /\ plain_bundle to_camel to_screaming_snake bd = true /\
   exists D, compile bd (b "foo.v1") = Ok D /\
     match D with
     | [f] => map (fun m => map (fun x => (f_name x, f_num x)) (dm_fields m)) (fl_msgs f) =
              [[(b "foo_id", 1); (b "bar", 2); (b "tags", 3); (b "st", 4)]]
     | _ => False
     end.
-Proof. cbv zeta. split; [vm_compute; reflexivity|]. eexists. split; vm_compute; reflexivity. Qed.
+Proof. cbv zeta. split; [vm_compute; reflexivity|]. split; [vm_compute; reflexivity|]. eexists. split; vm_compute; reflexivity. Qed.
